@@ -741,8 +741,12 @@ func ruleC03b(c *Ctx) {
 			if empty {
 				continue
 			}
+			if ruleC03bCoversReturn(c, s, r) {
+				continue // decided path-wise below (a list of fewer than two candidates needs no sort)
+			}
 			c.check(instrDominates(s.Call, r), name, "candidates are sorted before they are handed on", p.ipos(r), "sort.Sort dominates this return", "an unsorted candidate list is returned")
 		}
+		ruleC03bReads(c, s)
 	}
 	if nRoute == 0 {
 		c.bad("-", "route candidates are sorted", "-", "no sort of route candidates is reachable from the selectors")
